@@ -731,14 +731,21 @@ class BaseProject(object, metaclass=ABCMeta):
         """
         Remove record information on `absence_time_list`.
         """
-        self.product.remove_absence_time_list(self.absence_time_list)
-        self.workflow.remove_absence_time_list(self.absence_time_list)
-        self.organization.remove_absence_time_list(self.absence_time_list)
+        # each recorded absence step once; steps which were never simulated are ignored
+        step_time_list = sorted(
+            set(
+                step_time
+                for step_time in self.absence_time_list
+                if 0 <= step_time < len(self.cost_list)
+            )
+        )
+        self.product.remove_absence_time_list(step_time_list)
+        self.workflow.remove_absence_time_list(step_time_list)
+        self.organization.remove_absence_time_list(step_time_list)
 
-        for step_time in sorted(self.absence_time_list, reverse=True):
-            if step_time < len(self.cost_list):
-                self.cost_list.pop(step_time)
-        self.time = self.time - len(self.absence_time_list)
+        for step_time in sorted(step_time_list, reverse=True):
+            self.cost_list.pop(step_time)
+        self.time = self.time - len(step_time_list)
         self.absence_time_list = []
 
     def insert_absence_time_list(self, absence_time_list):
@@ -752,18 +759,29 @@ class BaseProject(object, metaclass=ABCMeta):
         # duplication check
         new_absence_time_list = []
         for time in absence_time_list:
-            if time not in self.absence_time_list:
+            if (
+                time not in self.absence_time_list
+                and time not in new_absence_time_list
+            ):
                 new_absence_time_list.append(time)
 
-        self.product.insert_absence_time_list(new_absence_time_list)
-        self.workflow.insert_absence_time_list(new_absence_time_list)
-        self.organization.insert_absence_time_list(new_absence_time_list)
-
+        # only steps inside the (growing) log can be inserted; the others are ignored
+        inserted_time_list = []
+        log_length = len(self.cost_list)
         for step_time in sorted(new_absence_time_list):
+            if 0 <= step_time < log_length:
+                inserted_time_list.append(step_time)
+                log_length = log_length + 1
+
+        self.product.insert_absence_time_list(inserted_time_list)
+        self.workflow.insert_absence_time_list(inserted_time_list)
+        self.organization.insert_absence_time_list(inserted_time_list)
+
+        for step_time in inserted_time_list:
             self.cost_list.insert(step_time, 0.0)
 
-        self.time = self.time + len(new_absence_time_list)
-        self.absence_time_list.extend(new_absence_time_list)
+        self.time = self.time + len(inserted_time_list)
+        self.absence_time_list.extend(inserted_time_list)
 
     def set_last_datetime(
         self, last_datetime, unit_timedelta=None, set_init_datetime=True
